@@ -58,6 +58,9 @@ func validateProcessor(processor publictypes.ProcessorDataI) error {
 
 	keyMap := make(map[string]bool)
 	for _, param := range processor.ParamList() {
+		if param == nil {
+			return fmt.Errorf("empty parameter entry in processor %s", processor.GetName())
+		}
 		if keyMap[param.Key] {
 			return fmt.Errorf("duplicate key: %s in processor %s", param.Key, processor.GetName())
 		}
@@ -84,6 +87,10 @@ func validateFlowConnection(flowConnection []*FlowConnection) error {
 	}
 
 	for _, connection := range flowConnection {
+		if connection == nil {
+			return fmt.Errorf("connection entry is empty")
+		}
+
 		if connection.From == nil {
 			return fmt.Errorf("connection from is required")
 		}
